@@ -102,7 +102,7 @@ func (s *MultiVar) String() string {
 		out.WriteString(expr.String())
 		return out.String()
 	}
-	out.WriteString(s.Literal() + " ")
+	// An assignment to several names: its token is the first name
 	out.WriteString(namesStr)
 	out.WriteString(" = ")
 	out.WriteString(expr.String())
